@@ -212,6 +212,9 @@ func partWrapper(sink *trace.Sink, rnd *rand.Rand, histories, steps int, stats m
 		startErr = 300 * time.Millisecond
 	)
 	proxy.VerifSetTimings(check, waitResp, startErr)
+	for _, first := range []bool{true, false} {
+		outstandingAnswerHistory(sink, first, stats)
+	}
 	for h := 0; h < histories; h++ {
 		sink.Reset("scenario", "wrapper", "check_ms", 40, "wait_ms", 400, "starterr_ms", 300)
 		ch := make(chan msg.Message, 256)
@@ -239,13 +242,13 @@ func partWrapper(sink *trace.Sink, rnd *rand.Rand, histories, steps int, stats m
 						case "ok":
 							go func() {
 								time.Sleep(time.Duration(5+rnd.Intn(30)) * time.Millisecond)
-								sink.Emit("drv", "drv.pm.reply", "name", name, "ok", true)
+								sink.Emit("drv", "drv.pm.reply", "name", name, "ok", true, "for_ver", port-6000)
 								_ = w.pm.StartProxy(name, fmt.Sprintf(":%d", port), "")
 							}()
 						case "err":
 							go func() {
 								time.Sleep(time.Duration(5+rnd.Intn(30)) * time.Millisecond)
-								sink.Emit("drv", "drv.pm.reply", "name", name, "ok", false)
+								sink.Emit("drv", "drv.pm.reply", "name", name, "ok", false, "for_ver", port-6000)
 								_ = w.pm.StartProxy(name, "", "port already used")
 							}()
 						}
@@ -312,6 +315,85 @@ func partWrapper(sink *trace.Sink, rnd *rand.Rand, histories, steps int, stats m
 		time.Sleep(30 * time.Millisecond)
 		close(stop)
 	}
+}
+
+// outstandingAnswerHistory: a registration answer is still under way when the wrapper that asked is replaced
+// (FrpcManager: the interleaving Reload between Send and Recv). The scripted server holds its answers:
+// definition 1 is registered (request 1), the configuration changes to definition 2 (close, request 2), then
+// the answers arrive in the order of the requests: request 1 accepted / refused, request 2 refused / accepted.
+func outstandingAnswerHistory(sink *trace.Sink, firstOK bool, stats map[string]int) {
+	sink.Reset("scenario", "wrapper", "check_ms", 40, "wait_ms", 400, "starterr_ms", 300, "directed", "outstanding-answer")
+	ch := make(chan msg.Message, 64)
+	tr := transport.NewMessageTransporter(ch)
+	common := &v1.ClientCommonConfig{}
+	common.Complete()
+	w := &wrun{sink: sink, policy: map[string]string{}}
+	w.pm = proxy.NewManager(context.Background(), common, tr, nil)
+	seen := make(chan int, 64) // versions of the NewProxy messages, 0 for a close
+	stop := make(chan struct{})
+	go func() {
+		for {
+			select {
+			case <-stop:
+				return
+			case m := <-ch:
+				switch x := m.(type) {
+				case *msg.NewProxy:
+					sink.Emit("drv", "pm.msg", "kind", "new", "name", x.ProxyName, "ver", x.RemotePort-6000)
+					seen <- x.RemotePort - 6000
+				case *msg.CloseProxy:
+					sink.Emit("drv", "pm.msg", "kind", "close", "name", x.ProxyName, "ver", 0)
+					seen <- 0
+				}
+			}
+		}
+	}()
+	waitFor := func(ver int) bool {
+		dl := time.After(3 * time.Second)
+		for {
+			select {
+			case v := <-seen:
+				if v == ver {
+					return true
+				}
+			case <-dl:
+				return false
+			}
+		}
+	}
+	pol := [][]any{{"a", "held"}}
+	ok := true
+	sink.Emit("drv", "drv.pm.update", "same", false, "cfgs", [][]any{{"a", 1}}, "policy", pol)
+	w.pm.UpdateAll([]v1.ProxyConfigurer{tcpCfg("a", 1)})
+	ok = ok && waitFor(1)
+	sink.Emit("drv", "drv.pm.update", "same", false, "cfgs", [][]any{{"a", 2}}, "policy", pol)
+	w.pm.UpdateAll([]v1.ProxyConfigurer{tcpCfg("a", 2)})
+	ok = ok && waitFor(2)
+	if !ok {
+		stats["directed_incomplete"]++
+	}
+	// the answers, in the order of the requests and well inside the response timeout
+	sink.Emit("drv", "drv.pm.reply", "name", "a", "ok", firstOK, "for_ver", 1)
+	if firstOK {
+		_ = w.pm.StartProxy("a", ":6001", "")
+	} else {
+		_ = w.pm.StartProxy("a", "", "port already used")
+	}
+	time.Sleep(10 * time.Millisecond)
+	sink.Emit("drv", "drv.pm.reply", "name", "a", "ok", !firstOK, "for_ver", 2)
+	if !firstOK {
+		_ = w.pm.StartProxy("a", ":6002", "")
+	} else {
+		_ = w.pm.StartProxy("a", "", "port unavailable")
+	}
+	// three back-off intervals: a refused registration of the live wrapper is due again, an accepted one runs
+	time.Sleep(1100 * time.Millisecond)
+	w.status("drv.pm.settled")
+	stats["directed"]++
+	w.sink.Emit("drv", "drv.pm.closeall")
+	w.pm.Close()
+	time.Sleep(30 * time.Millisecond)
+	close(stop)
 }
 
 var lastCfgsMu sync.Mutex
@@ -451,7 +533,7 @@ func cproxiesCmd(args []string) int {
 	partVisitors(sink, rnd, *histories, 2**steps, stats)
 	sink.Close()
 	*histories *= 2
-	fmt.Printf("STATS traces=%d events=%d", 1+*histories, sink.N)
+	fmt.Printf("STATS traces=%d events=%d", 3+*histories, sink.N)
 	ks := []string{}
 	for k := range stats {
 		ks = append(ks, k)
